@@ -492,7 +492,10 @@ def judge_c08(scn, run) -> Tuple[List[Viol], Dict[str, int]]:
             if r.get("session_id") != want:
                 v.append(("C08/login-session", "login reply session %s parsed as %r" % (want, r.get("session_id"))))
             continue
-        snap = op.exchanges[-1].snapshot
+        snap = op.exchanges[-1].snapshot if op.exchanges else None
+        if snap is None:
+            cnt(c, "grey:no-state-exchange")       # the reply the caller read was not produced for this operation
+            continue
         exp: Dict[str, Any] = {}
         if op.kind == "get_state":
             exp = {"cls": "SwitcherStateResponse", "state": "ON" if snap["on"] else "OFF",
@@ -585,6 +588,11 @@ def judge_c18(scn, run) -> Tuple[List[Viol], Dict[str, int]]:
     for cl in run.clients:
         model = False
         n_conn = 0
+        cnt(c, "probe:flag-samples", cl.flag_samples)
+        for bad in cl.flag_without_socket[:1]:
+            v.append(("C18/connected-without-socket/%s" % (bad["during"] or "idle"),
+                      "at event %d (during %s) connected is True but the client holds no established open socket" % (
+                          bad["seq"], bad["during"])))
         for op in cl.ops:
             k = op.kind
             st = [s for s in scn["steps"] if s.get("uid") == op.uid]
@@ -613,6 +621,7 @@ def judge_c18(scn, run) -> Tuple[List[Viol], Dict[str, int]]:
                     cnt(c, "probe:disconnect-while-disconnected")
                 if k == "aexit" and st and st[0].get("exc"):
                     cnt(c, "probe:body-exception")
+                    cnt(c, "probe:body-exception/%s" % st[0].get("exc_kind", "plain"))
                 if op.outcome[0] != "ok":
                     why = "after-peer-reset" if any(cn.rx_rst for cn in cl.conns) else "plain"
                     v.append(("C18/disconnect-raised/%s/%s" % (op.outcome[1], why),
@@ -745,7 +754,9 @@ def judge_c16(scn, run) -> Tuple[List[Viol], Dict[str, int]]:
         want: List[Tuple[str, str, Any]] = []
         if main and upd:
             alts = [dict(dev, state=1 if merged["on"] else 0, mode=merged["mode"], target=merged["target"] & 0xFF,
-                         fan=merged["fan"], swing=sw) for sw in ([0, 1] if special else [1 if merged["swing"] else 0])]
+                         fan=merged["fan"], swing=sw) for sw in (
+                             # a separate-swing remote: the requested value, what the device reported, or excluded (0)
+                             sorted({1 if merged["swing"] else 0, 0}) if special else [1 if merged["swing"] else 0])]
             want.append(("status", "breeze_update", alts))
         elif main:
             if 87 + len(text_main) + 4 >= 256:
@@ -820,7 +831,19 @@ def judge_c10(scn, run) -> Tuple[List[Viol], Dict[str, int]]:
                         {"args": op.args, "rec": (u[85], u[87:91], u[91:95]), "wall": (op.wall_lo, op.wall_hi)})
         if op.kind != "get_schedules" or op.outcome is None:
             continue
-        if any(ex.mode != "ok" for ex in op.exchanges) or len(op.exchanges) < 2 or op.app_reads[-1] != op.exchanges[-1].sent:
+        if len(op.exchanges) == 2 and op.exchanges[0].mode == "ok" and op.exchanges[1].mode == "eof" \
+                and len(op.app_reads) == 2 and op.app_reads[1] == b"":
+            # "an empty reply yields no schedules" (raising RuntimeError instead is what C09 allows for any operation)
+            cnt(c, "judged-empty-reply")
+            if op.outcome[0] == "ok":
+                if op.outcome[1].get("schedules") or op.outcome[1].get("n_schedules"):
+                    v.append(("C10/schedules-from-empty-reply", "an empty reply to get_schedules yielded %r" % (op.outcome[1],)))
+            elif not is_runtime_error(op.outcome):
+                v.append(("C10/empty-reply-raised/%s" % op.outcome[1],
+                          "an empty reply to get_schedules raised %s(%s)" % (op.outcome[1], op.outcome[2])))
+            continue
+        if any(ex.mode != "ok" for ex in op.exchanges) or len(op.exchanges) < 2 or len(op.app_reads) < 2 \
+                or op.app_reads[-1] != op.exchanges[-1].sent:
             cnt(c, "grey:faulty-reply")
             continue
         recs = [bytes.fromhex(r) for r in op.exchanges[-1].snapshot["records"]]
